@@ -46,7 +46,7 @@ def repo_tree_fingerprint():
             except OSError: pass
     return h.hexdigest()
 
-def build_all(modules=()):
+def build_all(modules=(), race_build=False):
     """Rebuild harness (from /repo's working tree, hooks on), regenerate Gen/*.lean, rebuild Lean. Returns dict of statuses."""
     os.makedirs(BIN, exist_ok=True)
     os.makedirs(REPLAYS, exist_ok=True)
@@ -59,6 +59,14 @@ def build_all(modules=()):
             st['harness'] = 'fail'
             st['harness_error'] = (out + err)[-4000:]
         st['harness_s'] = round(time.time() - t0, 1)
+        if race_build and rc == 0:
+            # race-detector build of the same sources (C25 only: minutes when the build cache is cold)
+            t0 = time.time()
+            rc2, out2, err2 = sh(['go', 'build', '-race', '-tags', 'verif', '-o', os.path.join(BIN, 'harness-race'), '.'], cwd=HARNESS, env=GOENV)
+            if rc2 != 0:
+                st['harness'] = 'fail'
+                st['harness_error'] = 'race build: ' + (out2 + err2)[-4000:]
+            st['harness_race_s'] = round(time.time() - t0, 1)
         # extractor (regenerated facts): Gen/Facts.lean is rebuilt from /repo's current source whenever the tree changed
         t0 = time.time()
         ext = os.path.join(ROOT, 'extract')
@@ -189,7 +197,7 @@ def run_check(prop, tier, seed, replay):
     P = props.PROPS[prop]
     known = load_known()
     modules = P.get('modules', [])
-    st = build_all(modules)
+    st = build_all(modules, race_build=P.get('race_build', False))
     violations = []   # (message, replay_path or None)
     known_hits = []
     notes = []
@@ -311,7 +319,7 @@ def run_check(prop, tier, seed, replay):
         'campaigns': camp,
         'generator_distribution': {k: stats[k] for k in sorted(stats)},
         'repo': repo_fingerprint(),
-        'build': {k: st[k] for k in ('harness', 'extract', 'lean', 'harness_s', 'lean_s') if k in st},
+        'build': {k: st[k] for k in ('harness', 'extract', 'lean', 'harness_s', 'harness_race_s', 'lean_s') if k in st},
         'known_findings_hit': [k['id'] for (k, _) in known_hits],
         'explanation': P.get('explanation', ''),
     }
